@@ -37,10 +37,9 @@ import Rl.Spec.Screen
 import Rl.Lemmas.Layout
 import Rl.Lemmas.Term
 import Rl.Lemmas.Render
+import Rl.Lemmas.RenderGhost
+import Rl.Lemmas.RenderLogTop
 open Rl Rl.Spec
-
-/-- every grapheme of `s` is of the quantified kind -/
-def C02_Plain (S : Segmenter) (R : RCfg) (s : Text) : Prop := ∀ g ∈ S.seg s, PlainG R g
 
 /-- **`calculate_position` is where printing ends.**  If the loop state `p` and the terminal cursor agree
     (`col = cols` ⇔ wrap pending), they agree again after `s` has been computed / printed. -/
@@ -199,14 +198,6 @@ def C02_Consistent (S : Segmenter) (R : RCfg) (t : Term) (l : Layout) (prompt be
   t.cols = R.cols ∧ Shows R.cw t prompt before after hint ∧
   l.cursor = calculatePosition S R (prompt ++ before) {} ∧
   l.end_ = calculatePosition S R (prompt ++ before ++ after ++ hint) {}
-
-/-- the same invariant in the vocabulary of the terminal only (`Rl.Synced`): `t` shows the text, the
-    believed cursor / end positions are where a terminal stands after printing `prompt ++ before` /
-    the whole text from the origin (`col = cols` ⇔ wrap pending), and the text is made of line breaks and
-    non-control characters.  This is the invariant the theorems below preserve; it needs no hypothesis on
-    how the old text is segmented. -/
-def C02_Synced (R : RCfg) (t : Term) (l : Layout) (prompt before after hint : Text) : Prop :=
-  Synced R t l (prompt ++ (before ++ after) ++ hint) (prompt ++ before)
 
 /-- the invariant implies the property's `Shows` -/
 theorem C02_synced_shows (R : RCfg) (t : Term) (l : Layout) (prompt before after hint : Text)
@@ -510,225 +501,19 @@ theorem C02_fast_path_statement_false : ¬ C02_fast_path_statement := by
   issues it in (a cursor-only move for the line that is displayed under the read's own prompt; the fast
   path only at the end of a line without hint; no output after the final newline). -/
 
-structure C02_Shown where
-  prompt : Text := []
-  before : Text := []
-  after : Text := []
-  hint : Text := []
-
-def C02_next (S : Segmenter) (R : RCfg) (prompt : Text) (s : RS) (g : C02_Shown) : RenderOp → C02_Shown
-  | .refresh p line pos info =>
-    match splitAtByte line pos with
-    | some (b, a) => ⟨p.getD prompt, b, a, info.getD []⟩
-    | none => g
-  | .moveCursor line pos hl =>
-    match splitAtByte line pos with
-    | some (b, a) =>
-      if s.layout.cursor == calculatePosition S R b s.promptSize then { g with before := b, after := a }
-      else if hl then ⟨prompt, b, a, []⟩ else { g with before := b, after := a }
-    | none => g
-  | .insert ch n push line pos hint nph hl =>
-    if push && fastPathGuard R s.layout ch n hint nph hl then ⟨g.prompt, g.before ++ [ch], [], []⟩
-    else match splitAtByte line pos with
-      | some (b, a) => ⟨prompt, b, a, hint.getD []⟩
-      | none => g
-  | .clearScreen => ⟨[], [], [], []⟩
-  | .moveToEnd => ⟨g.prompt, g.before ++ g.after ++ g.hint, [], []⟩
-  | .sync _ _ _ => g
-  | .writeln => g
-
-def C02_PlainSplit (S : Segmenter) (R : RCfg) (line : Text) (pos : Nat) (info : Option Text) : Prop :=
-  ∀ b a, splitAtByte line pos = some (b, a) →
-    C02_Plain S R b ∧ C02_Plain S R a ∧ C02_Plain S R (info.getD [])
-
-def C02_StepOK (S : Segmenter) (R : RCfg) (prompt : Text) (s : RS) (g : C02_Shown) : RenderOp → Prop
-  | .refresh p line pos info => C02_Plain S R (p.getD prompt) ∧ C02_PlainSplit S R line pos info
-  | .moveCursor line pos _ =>
-    g.prompt = prompt ∧ g.before ++ g.after = line ∧ C02_PlainSplit S R line pos none
-  | .insert ch n push line pos hint nph hl =>
-    ((push && fastPathGuard R s.layout ch n hint nph hl) = true →
-      g.after = [] ∧ g.hint = [] ∧ isC0Control ch = false) ∧ C02_PlainSplit S R line pos hint
-  | .clearScreen => True
-  | .moveToEnd => True
-  | .sync line pos hint =>
-    g.prompt = prompt ∧ splitAtByte line pos = some (g.before, g.after) ∧ (g.hint = hint.getD [] ∨ g.hint = [])
-  | .writeln => False
-
-/-- every operation of the log is issued in a situation the theorem covers -/
-def C02_Coherent (S : Segmenter) (R : RCfg) (prompt : Text) : RS → C02_Shown → List RenderOp → Prop
-  | _, _, [] => True
-  | s, g, op :: rest =>
-    C02_StepOK S R prompt s g op ∧
-    match s.apply S R prompt op with
-    | .ok s' => C02_Coherent S R prompt s' (C02_next S R prompt s g op) rest
-    | .error _ => True
-
-/-- the invariant of the composition: the terminal that has interpreted everything written so far shows the
-    ghost state as the renderer believes -/
-structure C02_Inv (S : Segmenter) (R : RCfg) (prompt : Text) (s : RS) (g : C02_Shown) : Prop where
-  synced : C02_Synced R ((Term.blank R.cols).feed R.cw s.all) s.layout g.prompt g.before g.after g.hint
-  psize : s.promptSize = calculatePosition S R prompt {}
-
 theorem C02_inv_refresh (S : Segmenter) (R : RCfg) (prompt : Text) (hc : 2 ≤ R.cols) (s s' : RS) (g : C02_Shown)
     (hinv : C02_Inv S R prompt s g) (p : Text) (dflt : Bool) (line : Text) (pos : Nat) (info : Option Text)
     (hp : C02_Plain S R p) (hsplit : C02_PlainSplit S R line pos info)
     (h : s.refresh S R p (calculatePosition S R p {}) dflt line pos info = .ok s') :
-    ∃ b a, splitAtByte line pos = some (b, a) ∧ C02_Inv S R prompt s' ⟨p, b, a, info.getD []⟩ := by
-  obtain ⟨nl, bytes, b, a, hs, hl, hb, e1, e2, e3⟩ := refresh_ok h
-  obtain ⟨hp1, hp2, hp3⟩ := hsplit b a hs
-  obtain ⟨rfl, rfl⟩ := splitAtByte_some hs
-  refine ⟨b, a, hs, ⟨?_, e3.trans hinv.psize⟩⟩
-  rw [e2, Term.feed_append, e1]
-  exact C02_full_refresh S R _ s.layout nl g.prompt g.before g.after g.hint p b a info dflt bytes hc
-    hinv.synced hp hp1 hp2 hp3 hl hb
+    ∃ b a, splitAtByte line pos = some (b, a) ∧ C02_Inv S R prompt s' ⟨p, b, a, info.getD []⟩ :=
+  Rl.inv_refresh S R prompt hc s s' g hinv p dflt line pos info hp hsplit h
 
 theorem C02_inv_step (S : Segmenter) (R : RCfg) (prompt : Text) (hc : 2 ≤ R.cols)
     (hprompt : C02_Plain S R prompt) (s s' : RS) (g : C02_Shown) (op : RenderOp)
     (hinv : C02_Inv S R prompt s g) (hok : C02_StepOK S R prompt s g op)
     (happ : s.apply S R prompt op = .ok s') :
-    C02_Inv S R prompt s' (C02_next S R prompt s g op) := by
-  have hpt : Tracks R s.promptSize ((Term.blank R.cols).feed R.cw prompt) := by
-    rw [hinv.psize]; exact tracks_calc S R hc _ _ _ hprompt (C02_blank_tracks R hc)
-  cases op with
-  | refresh p line pos info =>
-    obtain ⟨hp, hsplit⟩ := hok
-    cases p with
-    | none =>
-      simp only [RS.apply] at happ
-      rw [hinv.psize] at happ
-      obtain ⟨b, a, hs, hi⟩ := C02_inv_refresh S R prompt hc s s' g hinv prompt true line pos info hp hsplit happ
-      simp only [C02_next, hs, Option.getD_none]
-      exact hi
-    | some p =>
-      simp only [RS.apply] at happ
-      obtain ⟨b, a, hs, hi⟩ := C02_inv_refresh S R prompt hc s s' g hinv p false line pos info hp hsplit happ
-      simp only [C02_next, hs, Option.getD_some]
-      exact hi
-  | moveCursor line pos hl =>
-    obtain ⟨hgp, hline, hsplit⟩ := hok
-    simp only [RS.apply, RS.moveCursor] at happ
-    cases hs : splitAtByte line pos with
-    | none => rw [hs] at happ; cases happ
-    | some ba =>
-      obtain ⟨b, a⟩ := ba
-      rw [hs] at happ
-      simp only [] at happ
-      obtain ⟨hp1, hp2, _⟩ := hsplit b a hs
-      obtain ⟨hla, _⟩ := splitAtByte_some hs
-      have htr : Tracks R (calculatePosition S R b s.promptSize)
-          ((Term.blank R.cols).feed R.cw (g.prompt ++ b)) := by
-        rw [hgp, Term.feed_append]; exact tracks_calc S R hc _ _ _ hp1 hpt
-      have htext : g.prompt ++ (g.before ++ g.after) ++ g.hint = g.prompt ++ (b ++ a) ++ g.hint := by
-        rw [hline, hla]
-      have hsy := hinv.synced
-      unfold C02_Synced at hsy
-      rw [htext] at hsy
-      simp only [C02_next, hs]
-      by_cases hsame : s.layout.cursor = calculatePosition S R b s.promptSize
-      · have hbeq : (s.layout.cursor == calculatePosition S R b s.promptSize) = true := by simpa using hsame
-        rw [if_pos hbeq] at happ
-        injection happ with happ
-        subst happ
-        rw [if_pos hbeq]
-        refine ⟨?_, hinv.psize⟩
-        exact synced_same hsy _ (by rw [hsame]; exact htr) ⟨a ++ g.hint, by simp [List.append_assoc]⟩
-      · have hbeq : ¬ (s.layout.cursor == calculatePosition S R b s.promptSize) = true := by simpa using hsame
-        rw [if_neg hbeq] at happ
-        rw [if_neg hbeq]
-        cases hl with
-        | true =>
-          simp only [if_true] at happ ⊢
-          rw [hinv.psize] at happ
-          have hsplit' : C02_PlainSplit S R line pos none := hsplit
-          obtain ⟨b', a', hs', hi⟩ := C02_inv_refresh S R prompt hc s s' g hinv prompt true line pos none
-            hprompt hsplit' happ
-          rw [hs] at hs'
-          injection hs' with hs'
-          injection hs' with e1 e2
-          subst e1; subst e2
-          exact hi
-        | false =>
-          simp only [Bool.false_eq_true, if_false] at happ ⊢
-          split at happ
-          · cases happ
-          · injection happ with happ
-            subst happ
-            refine ⟨?_, hinv.psize⟩
-            show Synced R ((Term.blank R.cols).feed R.cw (RS.all (s.emit _))) _ _ _
-            rw [RS.all_emit, Term.feed_append]
-            exact (synced_move hc hsy _ _ htr ⟨a ++ g.hint, by simp [List.append_assoc]⟩).congr rfl rfl
-  | insert ch n push line pos hint nph hl =>
-    obtain ⟨hfast, hsplit⟩ := hok
-    simp only [RS.apply, RS.insert] at happ
-    by_cases hg : (push && fastPathGuard R s.layout ch n hint nph hl) = true
-    · obtain ⟨ga, gh, hch⟩ := hfast hg
-      rw [if_pos hg] at happ
-      simp only [C02_next, hg, if_true]
-      split at happ
-      · cases happ
-      · injection happ with happ
-        subst happ
-        have hguard : fastPathGuard R s.layout ch n hint nph hl = true := by
-          simp only [Bool.and_eq_true] at hg; exact hg.2
-        refine ⟨?_, hinv.psize⟩
-        have hsy := hinv.synced
-        rw [ga, gh] at hsy
-        show C02_Synced R ((Term.blank R.cols).feed R.cw (RS.all (s.emit _))) _ _ _ _ _
-        rw [RS.all_emit, Term.feed_append]
-        exact C02_fast_path R _ s.layout g.prompt g.before ch n hint nph hl hc hsy hguard hch
-    · rw [if_neg hg] at happ
-      rw [hinv.psize] at happ
-      obtain ⟨b, a, hs, hi⟩ := C02_inv_refresh S R prompt hc s s' g hinv prompt true line pos hint
-        hprompt hsplit happ
-      simp only [C02_next, hg, hs]
-      exact hi
-  | clearScreen =>
-    simp only [RS.apply] at happ
-    injection happ with happ
-    subst happ
-    refine ⟨?_, hinv.psize⟩
-    show Synced R ((Term.blank R.cols).feed R.cw (RS.all (s.emit _))) _ _ _
-    rw [RS.all_emit, Term.feed_append]
-    exact synced_clear hc _ s.layout hinv.synced.cols hinv.synced.ps
-  | moveToEnd =>
-    simp only [RS.apply] at happ
-    have hsy := hinv.synced
-    unfold C02_Synced at hsy
-    have htext : g.prompt ++ (g.before ++ g.after ++ g.hint ++ []) ++ [] =
-        g.prompt ++ (g.before ++ g.after) ++ g.hint := by simp [List.append_assoc]
-    have hbef : g.prompt ++ (g.before ++ g.after ++ g.hint) =
-        g.prompt ++ (g.before ++ g.after) ++ g.hint := by simp [List.append_assoc]
-    simp only [C02_next]
-    by_cases hsame : s.layout.cursor = s.layout.end_
-    · have hbeq : (s.layout.cursor == s.layout.end_) = true := by simpa using hsame
-      rw [if_pos hbeq] at happ
-      injection happ with happ
-      subst happ
-      refine ⟨?_, hinv.psize⟩
-      unfold C02_Synced
-      rw [htext, hbef]
-      exact synced_same hsy _ (by rw [hsame]; exact hsy.end_) ⟨[], by simp⟩
-    · have hbeq : ¬ (s.layout.cursor == s.layout.end_) = true := by simpa using hsame
-      rw [if_neg hbeq] at happ
-      injection happ with happ
-      subst happ
-      refine ⟨?_, hinv.psize⟩
-      unfold C02_Synced
-      rw [htext, hbef]
-      show Synced R ((Term.blank R.cols).feed R.cw (RS.all (s.emit _))) _ _ _
-      rw [RS.all_emit, Term.feed_append]
-      exact synced_move hc hsy _ _ hsy.end_ ⟨[], by simp⟩
-  | sync line pos hint =>
-    simp only [RS.apply] at happ
-    injection happ with happ
-    subst happ
-    refine ⟨?_, hinv.psize⟩
-    have : RS.all { s with out := [], segs := s.out :: s.segs } = s.all := by
-      simp [RS.all]
-    simp only [C02_next]
-    rw [this]
-    exact hinv.synced
-  | writeln => exact absurd hok (by simp [C02_StepOK])
+    C02_Inv S R prompt s' (C02_next S R prompt s g op) :=
+  Rl.inv_step S R prompt hc hprompt s s' g op hinv hok happ
 
 theorem C02_history_aux (S : Segmenter) (R : RCfg) (prompt : Text) (hc : 2 ≤ R.cols)
     (hprompt : C02_Plain S R prompt) (line : Text) (pos : Nat) (hint : Option Text) :
@@ -838,3 +623,88 @@ example :
         exact ⟨hp _ (by decide), hp _ (by decide), hp _ (by decide)⟩⟩,
       ⟨rfl, rfl, Or.inl rfl⟩, trivial⟩ rfl
   simpa using this
+
+/-! ### the editor model's own log
+
+  `Rl/Lemmas/RenderLog*.lean`: the log `Ed.render` the editor model writes is replayed next to the editor state
+  (`LogInv`: the renderer's believed cursor is the model's `layoutCursor`; `Sh`: the screen shows the read's own
+  prompt, the current line and cursor, with the current hint or none).  Proved: `Sh` is established by the first
+  repaint and kept by every logging primitive (`refreshLine`, `refreshLineWithMsg`, `moveCursor` in its three ways,
+  `editInsert` on the fast and the slow path, the callback), by reading and decoding a command in emacs and vi mode
+  (numeric-argument prompts included), by circular completion, by the dispatch loop and the main loop — *given*
+  that each command of `execute`, listing completion and incremental search keep it (`C02_EditorParts`).  Each
+  obligation of `C02_StepOK` is discharged where the operation is logged; no replay step panics. -/
+
+/-- what is assumed of the three parts of the editor model that are not lifted yet -/
+structure C02_EditorParts (S : Segmenter) (U : UData) (cfg : EdCfg) : Prop where
+  /-- every command leaves prompt, line and cursor shown (needs, per line-buffer operation, "reports no
+      change ⇒ changed nothing"; proved here for the shapes `pres_editMove`, `pres_editInsert`) -/
+  exec : ∀ cmd, Pres S U cfg (execute S U cfg cmd)
+  /-- listing completion (the circular variant is proved: `pres_completeCircular`) -/
+  complete : ∀ fuel, Pres S U cfg (completeLine S U cfg fuel)
+  /-- incremental search; **false in general** (finding D42: a command that ends the search without repainting
+      leaves the search prompt on the screen), true without stored history (`pres_ris_of_hist_nil`) -/
+  isearch : ∀ fuel, Pres S U cfg (reverseIncrementalSearch S U cfg fuel)
+
+/-- the render log of a read, oldest first, without the `writeln` that follows `readline_edit` -/
+def C02_editorLog (S : Segmenter) (U : UData) (cfg : EdCfg) (ring : KillRing) (left right : Text) (inp : Input) :
+    List RenderOp :=
+  (readline S U cfg ring left right inp).2.render.tail.reverse
+
+/-- **The editor model's log is coherent and replays without panic**, for logs whose texts are of the
+    quantified kind and whose cursors are on character boundaries (`LogFine`; the latter is the line-buffer
+    invariant of C03 / C17). -/
+theorem C02_editor_log_coherent (S : Segmenter) (U : UData) (cfg : EdCfg) (ring : KillRing) (left right : Text)
+    (inp : Input) (hc : 2 ≤ cfg.cols) (hprompt : C02_Plain S (edR U cfg) cfg.prompt)
+    (hctl : ∀ c, isC0Control c = true → U.cwidth c = 0) (hparts : C02_EditorParts S U cfg)
+    (hfine : LogFine S (edR U cfg) cfg.prompt (C02_editorLog S U cfg ring left right inp).reverse) :
+    ∃ rs g, RepFrom S (edR U cfg) cfg.prompt (RS.init S (edR U cfg) cfg.prompt) {}
+        (C02_editorLog S U cfg ring left right inp) rs g ∧
+      C02_Coherent S (edR U cfg) cfg.prompt (RS.init S (edR U cfg) cfg.prompt) {}
+        (C02_editorLog S U cfg ring left right inp) ∧
+      RS.run S (edR U cfg) cfg.prompt (RS.init S (edR U cfg) cfg.prompt)
+        (C02_editorLog S U cfg ring left right inp) = (rs, false) := by
+  have hnext := fun fuel sea iep => pres_nextCmd (S := S) (U := U) (cfg := cfg) hc hprompt fuel sea iep
+  have hw := readline_prog_logOK hc hprompt hnext hparts.complete hparts.isearch hctl hparts.exec ring left right inp
+  unfold C02_editorLog readline at *
+  simp only [List.reverse_reverse] at hfine
+  unfold wp at hw
+  split at hw
+  next a s' heq =>
+    simp only [heq, List.tail_cons] at hfine ⊢
+    obtain ⟨rs, g, hrep⟩ := hw hfine
+    exact ⟨rs, g, hrep, hrep.coherent.1, hrep.coherent.2⟩
+  next o s' heq =>
+    simp only [heq, List.tail_cons] at hfine ⊢
+    obtain ⟨rs, g, hrep⟩ := hw hfine
+    exact ⟨rs, g, hrep, hrep.coherent.1, hrep.coherent.2⟩
+
+/-- **At every callback of the model's own log the emulated terminal shows prompt, line and cursor** (with the
+    hint the callback sees or without any hint): `C02_history` applied to the log the editor model produces. -/
+theorem C02_editor_shows (S : Segmenter) (U : UData) (cfg : EdCfg) (ring : KillRing) (left right : Text)
+    (inp : Input) (hc : 2 ≤ cfg.cols) (hprompt : C02_Plain S (edR U cfg) cfg.prompt)
+    (hctl : ∀ c, isC0Control c = true → U.cwidth c = 0) (hparts : C02_EditorParts S U cfg)
+    (hfine : LogFine S (edR U cfg) cfg.prompt (C02_editorLog S U cfg ring left right inp).reverse)
+    (ops rest : List RenderOp) (line : Text) (pos : Nat) (hint : Option Text) (b a : Text)
+    (hlog : C02_editorLog S U cfg ring left right inp = (ops ++ [.sync line pos hint]) ++ rest)
+    (hsplit : splitAtByte line pos = some (b, a)) :
+    Shows (edR U cfg).cw ((Term.blank (edR U cfg).cols).feed (edR U cfg).cw
+        (RS.run S (edR U cfg) cfg.prompt (RS.init S (edR U cfg) cfg.prompt)
+          (ops ++ [.sync line pos hint])).1.segs.reverse.flatten) cfg.prompt b a (hint.getD []) ∨
+    Shows (edR U cfg).cw ((Term.blank (edR U cfg).cols).feed (edR U cfg).cw
+        (RS.run S (edR U cfg) cfg.prompt (RS.init S (edR U cfg) cfg.prompt)
+          (ops ++ [.sync line pos hint])).1.segs.reverse.flatten) cfg.prompt b a [] := by
+  obtain ⟨rs, g, hrep, _, _⟩ := C02_editor_log_coherent S U cfg ring left right inp hc hprompt hctl hparts hfine
+  rw [hlog] at hrep
+  obtain ⟨rs1, g1, h1⟩ := hrep.prefix
+  have hco := h1.coherent
+  exact C02_history S (edR U cfg) cfg.prompt ops line pos hint b a hc hprompt hsplit hco.1 (by rw [hco.2])
+
+/-- not proved yet: every command of `execute` and listing completion keep the screen in step.  What is missing
+    is, per line-buffer operation used by a command, the fact "reports no change ⇒ text and cursor unchanged"
+    (motions: `MoveOK`), then one `wp` proof per command from `wp_refreshLine_sh` / `wp_moveCursor_sh` /
+    `wp_editInsert_sh`; for `completeLine` only the shape of its `do` block stands in the way. -/
+def C02_execute_pres_statement : Prop :=
+  ∀ (S : Segmenter) (U : UData) (cfg : EdCfg), 2 ≤ cfg.cols → C02_Plain S (edR U cfg) cfg.prompt →
+    (∀ c, isC0Control c = true → U.cwidth c = 0) →
+    (∀ cmd, Pres S U cfg (execute S U cfg cmd)) ∧ (∀ fuel, Pres S U cfg (completeLine S U cfg fuel))
